@@ -729,9 +729,23 @@ def show(case):
                                 ';stdout' if case.get('same_stdout') else '', ';quiet' if case.get('quiet') else '') + ' | '.join(repr(l)[1:-1] for l in case['lines'])
 
 
+def coq_eval(tag, exprs, shard):
+    """core.coq_eval; a shard whose coqc was killed (shared machine, OOM killer) is retried once, in halves."""
+    try:
+        return core.coq_eval(tag, ['Model.Shell'], exprs, shard=shard)
+    except RuntimeError as e:
+        core.log(f'[C19] coqc failed once ({str(e)[:80]!r}...), retrying')
+        import time
+        time.sleep(5)
+        out = []
+        for k in range(0, len(exprs), 200):
+            out.extend(core.coq_eval(tag + 'r', ['Model.Shell'], exprs[k:k + 200], shard=shard))
+        return out
+
+
 def model_sessions(cases, tag='c19'):
     exprs = [session_expr(c) for c in cases]
-    return core.coq_eval(tag, ['Model.Shell'], exprs, shard=20)
+    return coq_eval(tag, exprs, 20)
 
 
 def _check_case(args):
@@ -823,7 +837,7 @@ def pure_cases(rng, n):
     for _ in range(n):
         lines.add(''.join(rng.choice(PIECES) for _ in range(rng.randint(1, 5))))
     lines = sorted(lines)
-    model = core.coq_eval('c19c', ['Model.Shell'], [f'classify_out {cstr(l)}' for l in lines], shard=400)
+    model = coq_eval('c19c', [f'classify_out {cstr(l)}' for l in lines], 400)
     hist = {'empty': 0, 'query': 0, 'command': 0, 'legacy-command': 0, 'unknown-command': 0}
     known = set(introspect()['commands'])
     for l, m in zip(lines, model):
@@ -871,7 +885,7 @@ def pure_cases(rng, n):
                 want.append([int(s)])
             except ValueError:
                 want.append([])
-    got = core.coq_eval('c19p', ['Model.Shell'], exprs, shard=600)
+    got = coq_eval('c19p', exprs, 600)
     count += len(exprs)
     for lab, g, w in zip(labels, got, want):
         if g != w:
@@ -1040,15 +1054,19 @@ def shrink_cli(case, model_of):
 
 def run(tier, rng):
     violations = []
-    n_sessions = 240 if tier == 'quick' else 4000
-    n_cli = 120 if tier == 'quick' else 1200
-    n_pure = 1500 if tier == 'quick' else 12000
+    import time
+    t0 = time.time()
+    n_sessions = 180 if tier == 'quick' else 3000
+    n_cli = 90 if tier == 'quick' else 1000
+    n_pure = 1200 if tier == 'quick' else 10000
     for k in LEDGERS:
         World.get(k)
     grid = grid_sessions()
     cases = [dict(c) for c in CORPUS] + grid + [gen_session(rng) for _ in range(n_sessions)]
     models = model_sessions(cases)
+    core.log(f'[C19] model sessions {time.time() - t0:.1f}s')
     results = core.pmap(_check_case, list(zip(cases, models)))
+    core.log(f'[C19] shell sessions {time.time() - t0:.1f}s')
     seen = set()
     for case, m, r in zip(cases, models, results):
         if r is None:
@@ -1084,7 +1102,7 @@ def run(tier, rng):
         {'ledger': 'C', 'format': 'csv', 'fmt_long': False, 'numberify': True, 'output': 'out_c.txt', 'quiet': False,
          'query': ['SELECT account, sum(position) AS total GROUP BY account'], 'stdin': ''},
     ] + [gen_cli(rng, k) for k in range(n_cli)]
-    cli_models = core.coq_eval('c19cli', ['Model.Shell'], [cli_expr(c) for c in cli_cases], shard=60)
+    cli_models = coq_eval('c19cli', [cli_expr(c) for c in cli_cases], 60)
     cli_results = [check_cli(x) for x in zip(cli_cases, cli_models)]
     cli_seen = set()
     for case, r in zip(cli_cases, cli_results):
@@ -1101,7 +1119,9 @@ def run(tier, rng):
         if len(cli_seen) >= 2:
             break
 
+    core.log(f'[C19] command line {time.time() - t0:.1f}s')
     npure, hist, pv = pure_cases(rng, n_pure)
+    core.log(f'[C19] pure helpers {time.time() - t0:.1f}s')
     violations.extend(pv)
 
     # histograms
